@@ -1615,3 +1615,112 @@ func TestT25ConcurrentInstances(t *testing.T) {
 		}
 	}
 }
+
+// 26: C11 - when a decoding step stops because the 64 KiB window is full and the input window happens to be
+// empty, what is left (symbols, end of block, sync marker or final block) sits complete in the bit buffer; the
+// next step must not wait for another source byte (reported by the round-5 C11 seeding agent).
+func TestT26WindowFullThenNoMoreInput(t *testing.T) {
+	for _, extra := range []int{257, 300, 1000} {
+		for _, closeIt := range []bool{false, true} {
+			data := make([]byte, 65536+extra)
+			var b bytes.Buffer
+			w, _ := stdflate.NewWriter(&b, 6)
+			w.Write(data)
+			if closeIt {
+				w.Close()
+			} else {
+				w.Flush()
+			}
+			src := &chunkThenFail{chunks: [][]byte{b.Bytes()}}
+			r := flate.NewReader(src)
+			got := 0
+			buf := make([]byte, 1<<17)
+			var err error
+			for err == nil {
+				var n int
+				n, err = r.Read(buf)
+				got += n
+			}
+			want := io.EOF
+			if !closeIt {
+				want = errSourceGone
+			}
+			if got != len(data) || err != want {
+				t.Errorf("extra %d close %v: got %d of %d bytes, err %v (want %v)", extra, closeIt, got, len(data), err, want)
+			}
+		}
+	}
+}
+
+// 27: C15 - a source whose own error value is bufio.ErrBufferFull (reported by the round-5 C15 seeding agent).
+func TestT27SourceReturnsErrBufferFull(t *testing.T) {
+	var b bytes.Buffer
+	w, _ := stdflate.NewWriter(&b, 6)
+	w.Write(randText(5000, 27))
+	w.Close()
+	src := &failingSrc{data: b.Bytes()[:100], chunk: 4096, err: bufio.ErrBufferFull}
+	r := flate.NewReader(src)
+	done := make(chan error, 1)
+	go func() {
+		_, err := io.ReadAll(r)
+		done <- err
+	}()
+	select {
+	case err := <-done:
+		if err != bufio.ErrBufferFull {
+			t.Errorf("got %v, want the source's error bufio.ErrBufferFull", err)
+		}
+	case <-time.After(2 * time.Second):
+		t.Errorf("Read spins: the source's error is swallowed")
+	}
+}
+
+// 28: C03 - a dynamic header that is invalid *and* runs out of input leaves bitsLen negative; the error path then
+// discards one byte too many, and the io.EOF of that Discard replaces the verdict: malformed input ends in io.EOF
+// (reported by the round-6 C03 seeding agent).
+func TestT28NegativeBitsOnErrorPath(t *testing.T) {
+	in := []byte{0x14, 0x8d, 0x31, 0x15, 0x00, 0x51, 0x08, 0xc3, 0x76, 0x54, 0x60, 0x8d, 0x42, 0xa1, 0xfd, 0xfe, 0x24, 0x46}
+	_, werr := stdInflate(in)
+	got, gerr := io.ReadAll(flate.NewReader(bytes.NewReader(in)))
+	if werr == nil {
+		t.Fatalf("reference accepts the input")
+	}
+	if gerr == nil {
+		t.Errorf("accepted (%d bytes, io.EOF) where compress/flate says %v", len(got), werr)
+	}
+}
+
+// 29: C13 - zlib: once a stream with a preset dictionary has been served the Reader keeps compress/flate's
+// inflater for ever; for later streams without dictionary a reset Reader then differs from a new one wherever
+// the two inflaters differ (bytes delivered before io.ErrUnexpectedEOF on a truncated stream, error offsets).
+func TestT29ZlibResetAfterDictStream(t *testing.T) {
+	dict := []byte("the quick brown fox jumps over the lazy dog")
+	var d bytes.Buffer
+	dw, _ := stdzlib.NewWriterLevelDict(&d, 6, dict)
+	dw.Write([]byte("the quick brown fox"))
+	dw.Close()
+	data := randText(150000, 1)
+	var b bytes.Buffer
+	w := stdzlib.NewWriter(&b)
+	w.Write(data)
+	w.Close()
+	diffs := 0
+	for _, cut := range []int{788, 1000, 5000, 17414, 20000, 30001} {
+		s := b.Bytes()[:cut]
+		fresh, _ := zlib.NewReader(bytes.NewReader(s))
+		a, ea := io.ReadAll(fresh)
+		used, err := zlib.NewReaderDict(bytes.NewReader(d.Bytes()), dict)
+		if err != nil {
+			t.Fatal(err)
+		}
+		io.ReadAll(used)
+		if err := used.(zlib.Resetter).Reset(bytes.NewReader(s), nil); err != nil {
+			t.Fatal(err)
+		}
+		c, ec := io.ReadAll(used)
+		if len(a) != len(c) || (ea == nil) != (ec == nil) {
+			diffs++
+			t.Errorf("cut %d: new Reader %d bytes (%v), Reader reset after a dictionary stream %d bytes (%v)", cut, len(a), ea, len(c), ec)
+		}
+	}
+}
